@@ -37,8 +37,9 @@ type ParkSpec struct {
 }
 
 type parked struct {
-	key string
-	ch  chan struct{}
+	key   string
+	owner string
+	ch    chan struct{}
 }
 
 // Kernel owns the tape, the log and the loop of one simulated run.
@@ -59,6 +60,10 @@ type Kernel struct {
 	FaultBudget int
 	faultsUsed  int
 	wake        chan struct{}
+	// ParkAll makes every yield park (step-level scheduling: the kernel releases exactly
+	// one goroutine at a time). Current names the task that was scheduled last.
+	ParkAll bool
+	Current string
 
 	// Sources contribute further actions (network, node, faults) at every step.
 	Sources []func() []Action
@@ -338,8 +343,8 @@ func (k *Kernel) Yield(point, ident string) {
 	k.mu.Lock()
 	k.pcount[point]++
 	n := k.pcount[point]
-	match := false
-	if !k.settling {
+	match := k.ParkAll && !k.settling
+	if !k.settling && !match {
 		for _, ps := range k.plan {
 			if ps.Point == point && ps.Nth == n {
 				match = true
@@ -351,12 +356,15 @@ func (k *Kernel) Yield(point, ident string) {
 		k.mu.Unlock()
 		return
 	}
-	if stackUnsafe() {
+	if ident == "" {
+		ident = k.Current
+	}
+	if !k.ParkAll && stackUnsafe() {
 		k.probes["park.skipped.lockheld"]++
 		k.mu.Unlock()
 		return
 	}
-	p := &parked{key: fmt.Sprintf("%s@%s#%d", point, ident, n), ch: make(chan struct{})}
+	p := &parked{key: fmt.Sprintf("%s@%s#%d", point, ident, n), owner: k.Current, ch: make(chan struct{})}
 	k.parked = append(k.parked, p)
 	k.parks[point]++
 	k.window = append(k.window, "park "+p.key)
@@ -388,6 +396,7 @@ func (k *Kernel) collect() []Action {
 			acts = append(acts, Action{Key: "task:" + t.Name + ":" + t.Op, Rank: 0, Weight: k.TaskWeight, Do: func() {
 				k.mu.Lock()
 				t.idle = false
+				k.Current = t.Name
 				k.mu.Unlock()
 				t.gate <- true
 			}})
@@ -403,6 +412,7 @@ func (k *Kernel) collect() []Action {
 					break
 				}
 			}
+			k.Current = p.owner
 			k.mu.Unlock()
 			close(p.ch)
 		}})
@@ -466,7 +476,9 @@ func (k *Kernel) Loop(done func() bool) {
 			idx = k.Tape.Weighted(ws)
 		}
 		var a Action
-		if idx < len(normal) {
+		if len(ws) == 0 {
+			a = Action{Key: "time"}
+		} else if idx < len(normal) {
 			a = normal[idx]
 		} else {
 			fw := make([]int, len(faults))
